@@ -69,8 +69,10 @@ func (p *Parser) parseNext() error {
 
 	c := p.data[p.pos]
 
-	// Check for potential operator (starts with letter)
-	if isLetter(c) {
+	// Check for potential operator (starts with letter; ' and " are the
+	// move-to-next-line-and-show-text operators). The keywords true, false and
+	// null are operands, exactly as in the document-level syntax.
+	if (isLetter(c) && p.keywordAt(p.pos) == "") || c == '\'' || c == '"' {
 		return p.parseOperator()
 	}
 
@@ -163,26 +165,16 @@ func (p *Parser) parseOperand() (core.Object, error) {
 	}
 
 	// Boolean or null
-	if c == 't' || c == 'f' || c == 'n' {
-		// Check if it's actually an operator
-		// Peek ahead to see if followed by whitespace
-		end := p.pos
-		for end < len(p.data) && !isWhitespace(p.data[end]) {
-			end++
-		}
-		token := string(p.data[p.pos:end])
-
-		switch token {
-		case "true":
-			p.pos = end
-			return core.Bool(true), nil
-		case "false":
-			p.pos = end
-			return core.Bool(false), nil
-		case "null":
-			p.pos = end
-			return core.Null{}, nil
-		}
+	switch p.keywordAt(p.pos) {
+	case "true":
+		p.pos += len("true")
+		return core.Bool(true), nil
+	case "false":
+		p.pos += len("false")
+		return core.Bool(false), nil
+	case "null":
+		p.pos += len("null")
+		return core.Null{}, nil
 	}
 
 	return nil, fmt.Errorf("unexpected character at position %d: %c", p.pos, c)
@@ -498,10 +490,35 @@ func (p *Parser) parseDict() (core.Object, error) {
 	return dict, nil
 }
 
-// skipWhitespace advances past PDF whitespace characters.
+// keywordAt returns "true", "false" or "null" if that keyword starts at pos and is
+// followed by whitespace, a delimiter or the end of the data; otherwise "".
+func (p *Parser) keywordAt(pos int) string {
+	for _, kw := range []string{"true", "false", "null"} {
+		end := pos + len(kw)
+		if end <= len(p.data) && string(p.data[pos:end]) == kw &&
+			(end == len(p.data) || isWhitespace(p.data[end]) || isDelimiter(p.data[end])) {
+			return kw
+		}
+	}
+	return ""
+}
+
+// skipWhitespace advances past PDF whitespace characters and comments
+// (a comment runs from % to the end of the line and counts as whitespace).
 func (p *Parser) skipWhitespace() {
-	for p.pos < len(p.data) && isWhitespace(p.data[p.pos]) {
-		p.pos++
+	for p.pos < len(p.data) {
+		c := p.data[p.pos]
+		if isWhitespace(c) {
+			p.pos++
+			continue
+		}
+		if c == '%' {
+			for p.pos < len(p.data) && p.data[p.pos] != '\n' && p.data[p.pos] != '\r' {
+				p.pos++
+			}
+			continue
+		}
+		break
 	}
 }
 
